@@ -213,8 +213,6 @@ gen_harness!(gen_kr_k_white_sound, gen_kr_k_white_complete, 22, true, &[(0, 4)],
 gen_harness!(gen_kr_k_black_sound, gen_kr_k_black_complete, 22, false, &[(1, 4)], false, false, [(|_p: &Pos, n: usize| n == 22), "rook with fourteen moves, king with eight"]);
 gen_harness!(gen_kb_k_white_sound, gen_kb_k_white_complete, 21, true, &[(0, 3)], false, false, [(|_p: &Pos, n: usize| n == 21), "bishop with thirteen moves, king with eight"]);
 gen_harness!(gen_kb_k_black_sound, gen_kb_k_black_complete, 21, false, &[(1, 3)], false, false, [(|_p: &Pos, n: usize| n == 21), "bishop with thirteen moves, king with eight"]);
-gen_harness!(gen_kq_k_white_sound, gen_kq_k_white_complete, 35, true, &[(0, 5)], false, false, [(|_p: &Pos, n: usize| n == 35), "queen with twenty-seven moves, king with eight"]);
-gen_harness!(gen_kq_k_black_sound, gen_kq_k_black_complete, 35, false, &[(1, 5)], false, false, [(|_p: &Pos, n: usize| n == 35), "queen with twenty-seven moves, king with eight"]);
 // pawn families: own pawn + enemy knight (push, double step, capture, promotion, capture-promotion)
 gen_harness!(gen_kp_kn_white_sound, gen_kp_kn_white_complete, 16, true, &[(0, 1), (1, 2)], false, false,
     [(|p: &Pos, _n: usize| p.bb[0][P] & RANK_7 != 0 && (geo_pawn(p.bb[0][P].trailing_zeros() as u8, true) & p.bb[1][N]) != 0), "capture-promotion available";
